@@ -28,6 +28,7 @@ pub fn dispatch(cmd: &str, args: &Args) -> Option<i32> {
         "c15-exh" => exhaustive(args),
         "c15-rand" => random(args),
         "c15-replay" => replay(args),
+        "c15-goldens" => goldens(args),
         _ => return None,
     })
 }
@@ -307,8 +308,10 @@ fn call(out: &mut Out, fonts: &Fonts, list: &[ds::Horizontal], t: Target, extra:
         ds::HBox::pack(fonts, owned, pw)
     });
     let mut ev = json!({"items": &items, "m": m, "t": amount});
-    if let Some(x) = extra {
-        ev["src"] = x.clone();
+    if let Some(Value::Object(x)) = extra {
+        for (k, v) in x {
+            ev[k.as_str()] = v.clone();
+        }
     }
     note(&items, m, amount, r.is_err());
     match r {
@@ -390,7 +393,9 @@ fn exhaustive(args: &Args) -> i32 {
                     call(&mut out, &fonts, &list, Target::Additional(a), None);
                 }
             }
-            if let Some(nat) = nat {
+            // (a natural width outside TeX's dimension range can only come out of a defect in the
+            // packer; no exact targets are placed relative to it)
+            if let Some(nat) = nat.filter(|n| n.unsigned_abs() < (1 << 30)) {
                 for k in [-2, 0, 1] {
                     call(&mut out, &fonts, &list, Target::Exact(nat + k), None);
                 }
@@ -699,5 +704,85 @@ fn replay(args: &Args) -> i32 {
         }
     }
     out.flush();
+    0
+}
+
+// ------------------------------------------------------------------------------------------
+// the repository's golden paragraphs: lines set by real TeX (boxworks-knuthplass/testdata)
+// ------------------------------------------------------------------------------------------
+
+const GOLDEN_DIR: &str = concat!(
+    env!("CARGO_MANIFEST_DIR"),
+    "/../../repo/crates/boxworks-knuthplass/testdata"
+);
+
+/// Every `hbox` of every `*_want.txt` golden (written from real TeX's log by the repository's
+/// TEXCRAFT_VERIFY mode) is one line of a paragraph: its list is packed again by the real packer
+/// to the golden's width.  The event also carries TeX's own box as `tex` so that the
+/// specification itself is compared with real TeX (to the precision TeX prints).
+fn goldens(args: &Args) -> i32 {
+    quiet_panics();
+    let fonts = Fonts::new();
+    let mut out = Out::new(args.str("out"));
+    let dir = args.str("dir").unwrap_or(GOLDEN_DIR);
+    let mut files: Vec<_> = match std::fs::read_dir(dir) {
+        Ok(rd) => rd.filter_map(|e| e.ok()).map(|e| e.path()).collect(),
+        Err(e) => {
+            eprintln!("cannot read {dir}: {e}");
+            return 2;
+        }
+    };
+    files.retain(|p| p.file_name().and_then(|n| n.to_str()).map(|n| n.ends_with("_want.txt")).unwrap_or(false));
+    files.sort();
+    let mut lines = 0u64;
+    for f in &files {
+        let text = std::fs::read_to_string(f).expect("read golden");
+        let list = match boxworks::lang::parse_horizontal_list(&text) {
+            Ok(l) => l,
+            Err(_) => {
+                eprintln!("golden {} does not parse", f.display());
+                return 2;
+            }
+        };
+        let mut boxes: Vec<ds::HBox> = vec![];
+        fn walk_h(l: &[ds::Horizontal], acc: &mut Vec<ds::HBox>) {
+            for e in l {
+                match e {
+                    ds::Horizontal::VBox(v) => walk_v(&v.list, acc),
+                    ds::Horizontal::HBox(h) => {
+                        acc.push(h.clone());
+                        walk_h(&h.list, acc);
+                    }
+                    _ => {}
+                }
+            }
+        }
+        fn walk_v(l: &[ds::Vertical], acc: &mut Vec<ds::HBox>) {
+            for e in l {
+                match e {
+                    ds::Vertical::VBox(v) => walk_v(&v.list, acc),
+                    ds::Vertical::HBox(h) => {
+                        acc.push(h.clone());
+                        walk_h(&h.list, acc);
+                    }
+                    _ => {}
+                }
+            }
+        }
+        walk_h(&list, &mut boxes);
+        let name = f.file_name().unwrap().to_string_lossy().to_string();
+        for b in boxes {
+            if b.list.is_empty() {
+                continue;
+            }
+            lines += 1;
+            let tex = json!({"tex": {"w": b.width.0, "h": b.height.0, "d": b.depth.0, "o": order_num(b.glue_order),
+                "num": b.glue_ratio.num.0, "den": b.glue_ratio.den.0}, "file": name});
+            call(&mut out, &fonts, &b.list, Target::Exact(b.width.0), Some(&tex));
+        }
+    }
+    out.flush();
+    write_stats(args, json!({"golden_files": files.len(), "lines": lines}));
+    eprintln!("c15-goldens: files {} lines {}", files.len(), lines);
     0
 }
